@@ -39,6 +39,13 @@ Theorem narrow_isinstance_sound_partial : forall P, sub_trans P -> forall t k ye
 Proof. exact Proofs1.narrow_isinstance_sound. Qed.
 Print Assumptions narrow_isinstance_sound_partial.
 
+(* the same for isinstance(x, (K1, ..., Kn)) *)
+Theorem narrow_isinstance_tuple_sound_partial : forall P, sub_trans P -> forall t ks yes no v,
+  narrow_isinst_l P true t ks = Ok (yes, no) -> mem P v t ->
+  (existsb (isinst P v) ks = true -> mem P v yes) /\ (existsb (isinst P v) ks = false -> mem P v no).
+Proof. exact Proofs1.narrow_isinstance_l_sound. Qed.
+Print Assumptions narrow_isinstance_tuple_sound_partial.
+
 (* ... because what mypy does (sm = false) is unsound under multiple inheritance *)
 Theorem narrow_isinstance_refuted : ~ narrow_isinstance_sound_unrestricted.
 Proof. exact Proofs3.narrow_isinst_refuted. Qed.
@@ -106,10 +113,16 @@ Proof. vm_compute. reflexivity. Qed.
 Example certified_loop_class_example :
   check_prog_certified loop_class_prog = true /\ call_fun loop_class_prog 400 1 [VNone] = Val (VInt 1%Z).
 Proof. split; vm_compute; reflexivity. Qed.
+Example certified_for_str_tuple_example :
+  check_prog_certified for_str_tuple_prog = true /\ call_fun for_str_tuple_prog 400 1 [VStr [97; 98]] = Val (VInt 3%Z).
+Proof. split; vm_compute; reflexivity. Qed.
 Example sub_trans_example : sub_trans mi_prog.
 Proof. exact Proofs3.mi_sub_trans. Qed.
 Example expr_example :
   infer narrow_join_prog true [(1, TUnion [TInt; TNone])] [] (EOr (EVar 1) (EInt 3%Z)) = Ok (TInt, (Some [], None)).
+Proof. vm_compute. reflexivity. Qed.
+Example narrow_tuple_example :
+  narrow_isinst_l mi_prog true (TUnion [TInst 2; TInt; TNone]) [CUser 3; CBool] = Ok (TUnion [TInst 3; TBool], TUnion [TInst 2; TInt; TNone]).
 Proof. vm_compute. reflexivity. Qed.
 Example narrow_example :
   narrow_isinst mi_prog true (TUnion [TInst 2; TNone]) (CUser 3) = Ok (TInst 3, TUnion [TInst 2; TNone]).
